@@ -1140,7 +1140,8 @@ impl CommandExecutor for DrawExecutor {
                 if parameters.len() != 1 {
                     return Err(anyhow::anyhow!("TimeAPause command requires 1 argument"));
                 }
-                Ok(CallbackAction::Pause(1000 * parameters[0] as u32))
+                // "MAX time is 30 seconds"; a negative value (reachable through the loop modifiers) is no pause
+                Ok(CallbackAction::Pause(1000 * parameters[0].clamp(0, 30) as u32))
             }
 
             IgsCommands::PolymarkerPlot => {
